@@ -187,8 +187,17 @@ def run_cut(shard):
                     acc.fail('get_automorphism_mapping differs from reference', target=ts['tag'], got=len(set(got)), expected=len(exp), pattern='self', is_query=False)
                 if t.is_automorphic() != bool(exp):
                     acc.fail('is_automorphic differs from reference', target=ts['tag'], pattern='self', is_query=False)
-            elif not set(got) <= exp | {frozenset()} and False:
-                pass
+            else:
+                # several components: the library enumerates products of automorphisms of the single components (components are never exchanged)
+                cm = {}
+                for ci_, comp_ in enumerate(cycles.components(tadj)):
+                    for x_ in comp_:
+                        cm[x_] = ci_
+                exp_mc = {m for m in exp if all(cm[a] == cm[b] for a, b in m)}
+                if any(len({b for _, b in m}) != len(m) for m in got):
+                    acc.fail('get_automorphism_mapping returns a map that is not injective (several components)', target=ts['tag'], pattern='self', is_query=False)
+                elif set(got) != exp_mc:
+                    acc.fail('get_automorphism_mapping differs from the product of component automorphisms', target=ts['tag'], got=len(set(got)), expected=len(exp_mc), pattern='self', is_query=False)
         except Exception as e:
             acc.fail('automorphism raised %s' % type(e).__name__, target=ts['tag'], pattern='self', is_query=False)
     return acc
